@@ -122,7 +122,7 @@ impl<'a> MsgVariant<'a> {
         let method_call = msg_attr.msg_type().emit_dispatch_leg(function_name, &args);
 
         quote! {
-            #name {
+            Self :: #name {
                 #(#fields,)*
             } => #method_call
         }
@@ -257,7 +257,7 @@ where
             return quote! {};
         }
         quote! {
-            _Phantom(_) => Err(#sylvia ::cw_std::StdError::generic_err("Phantom message should not be constructed.")).map_err(Into::into),
+            Self :: _Phantom(_) => Err(#sylvia ::cw_std::StdError::generic_err("Phantom message should not be constructed.")).map_err(Into::into),
         }
     }
 
